@@ -272,13 +272,25 @@ func websocketFactsLocking(p *pkgInfo, w *bytes.Buffer) error {
 			variadic = last.Names[0].Name
 		}
 	}
-	inLoop := false
+	// Conn.write puts all the buffers on the transport inside ONE hold of the lock: either a loop over its variadic
+	// parameter, or one conn.Write per buffer parameter — every one of them after the same `<-c.mu` and before the
+	// deferred release, with no other send on mu in the function
+	inLoop, nInWrite, sameHold := false, 0, true
+	var acquire token.Pos
 	for _, lw := range lws {
 		if lw.fn == wfd {
-			inLoop = variadic != "" && lw.inRangeOver == variadic && lw.acquirePos != token.NoPos && lw.deferRel && lw.otherSends == 0
+			nInWrite++
+			held := lw.acquirePos != token.NoPos && lw.deferRel && lw.otherSends == 0
+			if acquire == token.NoPos {
+				acquire = lw.acquirePos
+			}
+			sameHold = sameHold && held && lw.acquirePos == acquire
+			if variadic != "" && lw.inRangeOver == variadic && held {
+				inLoop = true
+			}
 		}
 	}
-	oneHold = oneHold && inLoop
+	oneHold = oneHold && (inLoop || (variadic == "" && nInWrite >= nBufs && nInWrite >= 2 && sameHold))
 	fmt.Fprintf(w, "/-- C15 fact. Evidence: `messageWriter.flushFrame` contains %d call(s) `c.write(…)` passing %d buffers; `Conn.write`\nwrites them in `for … range %s` between one `<-c.mu` and the deferred release. -/\ndef dataFrameBuffersWrittenInOneLockHold : Bool := %s\n",
 		nWrite, nBufs, variadic, boolLean(oneHold))
 	return nil
